@@ -313,7 +313,7 @@ pub fn run(ctx: &Ctx) -> Report {
                 continue;
             }
             if near_max {
-                if !matches!(kind, Kind::Atr | Kind::Macd | Kind::Kc) {
+                if !matches!(kind, Kind::Atr | Kind::Macd | Kind::Kc | Kind::Ppo) {
                     continue;
                 }
                 if p.k.abs() > 3.0 {
